@@ -366,3 +366,39 @@ func fullUnconditionalLoopAt(u *U, s *Summary, loops []*Loop, blk *ssa.BasicBloc
 	}
 	return true, ro.Coll, ""
 }
+
+// evalInner evaluates top with the call(s) of inner expanded and returns the
+// (last) activation of inner: its values are stated in terms of top's
+// parameters, whatever inner's own parameter list looks like.  localBool gives
+// a boolean result of the activation relative to the activation's entry
+// condition.
+func evalInner(g *Gate, top, inner *ssa.Function) (sTop, sub *Summary) {
+	prev := g.Inline
+	name := FuncName(inner)
+	g.Inline = func(caller, callee *ssa.Function, depth int) bool {
+		if FuncName(callee) == name {
+			return true
+		}
+		if prev != nil && caller != top {
+			return prev(caller, callee, depth)
+		}
+		return false
+	}
+	sTop = g.Eval(top)
+	for _, s := range g.Subs {
+		if s.Fn == inner && s.Parent == sTop {
+			sub = s
+		}
+	}
+	return
+}
+
+func localBool(g *Gate, sub *Summary, i int) Ref {
+	u := g.U
+	h := u.ToBool(g.RetExpr(sub, i))
+	base := sub.RC[sub.Fn.Blocks[0]]
+	if base == True || base == False {
+		return h
+	}
+	return u.bdd.Restrict(h, base)
+}
